@@ -3,6 +3,7 @@ module gosym
 go 1.23
 
 require (
+	github.com/decred/dcrd/dcrec/secp256k1/v4 v4.2.0
 	github.com/zeebo/blake3 v0.2.3
 	golang.org/x/tools v0.29.0
 )
